@@ -304,7 +304,15 @@ pub fn gen_cases(seed: u64, n: usize, max_len: i32, max_depth: usize, start_id: 
         if plan.is_empty() {
             continue;
         }
-        out.push(json!({"id":id,"arity":arity,"nlocals":0,"body":body,"plan":plan,"src":"rand"}));
+        let pre = match rng.gen_range(0..6) {
+            0 => "del_imp",
+            1 => "add_imp",
+            _ => "",
+        };
+        // op7 must be unused when it is deleted
+        let uses_op7 = body.iter().any(|i| i["o"] == "op" && i["k"] == 7);
+        let pre = if pre == "del_imp" && uses_op7 { "" } else { pre };
+        out.push(json!({"id":id,"arity":arity,"nlocals":0,"body":body,"plan":plan,"src":"rand","pre":pre}));
         id += 1;
     }
     out
